@@ -3,9 +3,13 @@
 use std::fmt::Debug;
 #[cfg(test)]
 use std::sync::Arc;
+#[cfg(all(folo_verif, not(test)))]
+use std::sync::Arc;
 
 #[cfg(test)]
 use crate::pal::linux::MockFilesystem;
+#[cfg(folo_verif)]
+use crate::pal::linux::verif::VerifFilesystem;
 use crate::pal::linux::{BuildTargetFilesystem, Filesystem};
 
 /// Enum to hide the different filesystem implementations behind a single wrapper type.
@@ -15,6 +19,9 @@ pub(crate) enum FilesystemFacade {
 
     #[cfg(test)]
     Mock(Arc<MockFilesystem>),
+
+    #[cfg(folo_verif)]
+    Verif(Arc<dyn VerifFilesystem>),
 }
 
 impl FilesystemFacade {
@@ -34,6 +41,8 @@ impl Filesystem for FilesystemFacade {
             Self::Target(filesystem) => filesystem.get_cpuinfo_contents(),
             #[cfg(test)]
             Self::Mock(mock) => mock.get_cpuinfo_contents(),
+            #[cfg(folo_verif)]
+            Self::Verif(verif) => verif.get_cpuinfo_contents(),
         }
     }
 
@@ -42,6 +51,8 @@ impl Filesystem for FilesystemFacade {
             Self::Target(filesystem) => filesystem.get_numa_node_cpulist_contents(node_index),
             #[cfg(test)]
             Self::Mock(mock) => mock.get_numa_node_cpulist_contents(node_index),
+            #[cfg(folo_verif)]
+            Self::Verif(verif) => verif.get_numa_node_cpulist_contents(node_index),
         }
     }
 
@@ -50,6 +61,8 @@ impl Filesystem for FilesystemFacade {
             Self::Target(filesystem) => filesystem.get_possible_cpus_contents(),
             #[cfg(test)]
             Self::Mock(mock) => mock.get_possible_cpus_contents(),
+            #[cfg(folo_verif)]
+            Self::Verif(verif) => verif.get_possible_cpus_contents(),
         }
     }
 
@@ -58,6 +71,8 @@ impl Filesystem for FilesystemFacade {
             Self::Target(filesystem) => filesystem.get_online_cpus_contents(),
             #[cfg(test)]
             Self::Mock(mock) => mock.get_online_cpus_contents(),
+            #[cfg(folo_verif)]
+            Self::Verif(verif) => verif.get_online_cpus_contents(),
         }
     }
 
@@ -66,6 +81,8 @@ impl Filesystem for FilesystemFacade {
             Self::Target(filesystem) => filesystem.get_cpu_online_contents(cpu_index),
             #[cfg(test)]
             Self::Mock(mock) => mock.get_cpu_online_contents(cpu_index),
+            #[cfg(folo_verif)]
+            Self::Verif(verif) => verif.get_cpu_online_contents(cpu_index),
         }
     }
 
@@ -74,6 +91,8 @@ impl Filesystem for FilesystemFacade {
             Self::Target(filesystem) => filesystem.get_numa_node_possible_contents(),
             #[cfg(test)]
             Self::Mock(mock) => mock.get_numa_node_possible_contents(),
+            #[cfg(folo_verif)]
+            Self::Verif(verif) => verif.get_numa_node_possible_contents(),
         }
     }
 
@@ -82,6 +101,8 @@ impl Filesystem for FilesystemFacade {
             Self::Target(filesystem) => filesystem.get_proc_self_status_contents(),
             #[cfg(test)]
             Self::Mock(mock) => mock.get_proc_self_status_contents(),
+            #[cfg(folo_verif)]
+            Self::Verif(verif) => verif.get_proc_self_status_contents(),
         }
     }
 
@@ -90,6 +111,8 @@ impl Filesystem for FilesystemFacade {
             Self::Target(filesystem) => filesystem.get_proc_self_cgroup(),
             #[cfg(test)]
             Self::Mock(mock) => mock.get_proc_self_cgroup(),
+            #[cfg(folo_verif)]
+            Self::Verif(verif) => verif.get_proc_self_cgroup(),
         }
     }
 
@@ -98,6 +121,8 @@ impl Filesystem for FilesystemFacade {
             Self::Target(filesystem) => filesystem.get_v1_cgroup_cpu_quota(cgroup_name),
             #[cfg(test)]
             Self::Mock(mock) => mock.get_v1_cgroup_cpu_quota(cgroup_name),
+            #[cfg(folo_verif)]
+            Self::Verif(verif) => verif.get_v1_cgroup_cpu_quota(cgroup_name),
         }
     }
 
@@ -106,6 +131,8 @@ impl Filesystem for FilesystemFacade {
             Self::Target(filesystem) => filesystem.get_v1_cgroup_cpu_period(cgroup_name),
             #[cfg(test)]
             Self::Mock(mock) => mock.get_v1_cgroup_cpu_period(cgroup_name),
+            #[cfg(folo_verif)]
+            Self::Verif(verif) => verif.get_v1_cgroup_cpu_period(cgroup_name),
         }
     }
 
@@ -114,6 +141,8 @@ impl Filesystem for FilesystemFacade {
             Self::Target(filesystem) => filesystem.get_v2_cgroup_cpu_quota_and_period(cgroup_name),
             #[cfg(test)]
             Self::Mock(mock) => mock.get_v2_cgroup_cpu_quota_and_period(cgroup_name),
+            #[cfg(folo_verif)]
+            Self::Verif(verif) => verif.get_v2_cgroup_cpu_quota_and_period(cgroup_name),
         }
     }
 }
@@ -125,6 +154,8 @@ impl Debug for FilesystemFacade {
             Self::Target(inner) => inner.fmt(f),
             #[cfg(test)]
             Self::Mock(inner) => inner.fmt(f),
+            #[cfg(folo_verif)]
+            Self::Verif(inner) => inner.fmt(f),
         }
     }
 }
